@@ -215,8 +215,10 @@ func Update(t *rapid.T, f *gen.Func, state []reflect.Value, shape string, o gen.
 	u := refmodel.Update{}
 	needSel := shape == PartialSelector || shape == DeleteSelector || shape == DeleteSelElements || shape == DeleteAndPartial
 	var sel reflect.Value
+	var selKey []uint64
 	if needSel {
-		sel = selectorFor(f, pickKey(t, f, state, label+".sel"))
+		selKey = pickKey(t, f, state, label+".sel")
+		sel = selectorFor(f, selKey)
 		if matches(sel, state) > 1 {
 			shape = PartialIDs
 		}
@@ -242,8 +244,13 @@ func Update(t *rapid.T, f *gen.Func, state []reflect.Value, shape string, o gen.
 	case PartialSelector:
 		u.Partial = true
 		u.PartialSelector = sel
-		// the written item carries no identifier: the selector addresses it
-		u.Items = []reflect.Value{gen.Item(t, f, nil, o, label+".item")}
+		// the selector addresses the item; the written item may repeat the selected identifier
+		// (as real senders do) or carry none
+		var keys []uint64
+		if rapid.Bool().Draw(t, label+".itemRepeatsKey") {
+			keys = selKey
+		}
+		u.Items = []reflect.Value{gen.Item(t, f, keys, o, label+".item")}
 	case DeleteSelector:
 		u.Delete = true
 		u.DeleteSelector = sel
